@@ -118,18 +118,36 @@ class Purity:
         key = (rel, cls, name)
         if key in self._cw:
             return self._cw[key]
-        fm = self.repo.find_method(rel, cls, name) if cls in self.repo.modules[rel].classes else None
-        if fm is None:
+        if cls not in self.repo.modules[rel].classes or self.repo.find_method(rel, cls, name) is None:
             return None
         if key in _stack:
             return {'*'}              # recursion: give up on precision
-        fdef = self.repo.modules[fm[0]].functions[fm[1]]
-        if any(isinstance(d, ast.Name) and d.id in ('staticmethod', 'classmethod') for d in fdef.decorator_list):
-            return None
-        w = self._writes(fdef, True, ctx=(rel, cls, _stack + (key,))).get(0, set())
+        # self may be an instance of a subclass: every class at or below cls contributes the definition it would dispatch to
+        w = set()
+        for (r2, c2) in self._family(rel, cls):
+            fm = self.repo.find_method(r2, c2, name)
+            if fm is None:
+                continue
+            fdef = self.repo.modules[fm[0]].functions[fm[1]]
+            if any(isinstance(d, ast.Name) and d.id in ('staticmethod', 'classmethod') for d in fdef.decorator_list):
+                return None
+            w |= self._writes(fdef, True, ctx=(r2, c2, _stack + (key,))).get(0, set())
         if not _stack:
             self._cw[key] = w
         return w
+
+    def _family(self, rel, cls):
+        """(module, class) for cls and every class of the tree that derives from it"""
+        if not hasattr(self, '_fam'):
+            self._fam = {}
+        if (rel, cls) not in self._fam:
+            out = [(rel, cls)]
+            for r2, m in sorted(self.repo.modules.items()):
+                for c2 in m.classes:
+                    if (r2, c2) != (rel, cls) and (rel, cls) in self.repo.class_bases(r2, c2):
+                        out.append((r2, c2))
+            self._fam[(rel, cls)] = out
+        return self._fam[(rel, cls)]
 
     def _writes(self, fdef, is_method, ctx=None):
         """-> {parameter index: set of first-level attribute names written ('*' = the object itself / unknown)}"""
